@@ -13,7 +13,7 @@
     v_prop : the load is outside the property's domain (two variables for one
              leaf, a variable that is a prefix of another, a type clash), or
              the loader produced exactly the specification's tree
-    guards : 3 = C20-F3 shape, 4 = C20-F4 shape *)
+    guards : 3 = C20-F3 shape, 4 = C20-F4 narrowed to where the defect shows ([guard_F4n]) *)
 From HV Require Export Base.Prelude C20.Model C20.Spec.
 
 Inductive outcome := OPanic | OErr | OTree (t : list (key * cfg)).
@@ -112,12 +112,16 @@ Definition g_F4 (c : case) : bool := guard_F4 (norm_env (c_pfx c) (c_env c)).
 Definition check (fix3 fix4 : bool) (c : case) : verdict :=
   let ne := norm_env (c_pfx c) (c_env c) in
   let g3 := g_F3 c && negb fix3 in
-  let g4 := g_F4 c && negb fix4 in
   let te := typed_env (oracle c) ne in
   let fm := match c_f c with Some m => m | None => [] end in
+  let g4 := guard_F4n (c_d c) fm ne && negb fix4 in
   let scope := in_scope_b (c_d c) fm te in
+  (* inside the domain every observed outcome must be an outcome of the model (all orders where no theorem
+     says that two suffice: finding shapes, and names of the C20-F4 shape whose element exists); outside the
+     domain the property says nothing and the exact outcome (panic, error, leftover keys) is not compared *)
   {| v_corr := negb (is_nil (c_obs c)) &&
-               subset_outcomes (c_obs c) (model_outcomes fix3 fix4 c (g3 || g4 || negb scope));
+               (negb scope ||
+                subset_outcomes (c_obs c) (model_outcomes fix3 fix4 c (g3 || g4 || (g_F4 c && negb fix4))));
      v_prop := match scope, te with
                | true, Some env =>
                    match c_obs c with
